@@ -253,4 +253,482 @@ theorem feed_frame (s : Ser) (cs : List (Option Chunk)) :
     have h2 := set_frame s c
     exact ⟨this.1.trans h2.1, this.2.trans h2.2⟩
 
+
+-- ------------------------------------------------------------------------------------------------
+-- sender + channel part of the invariant
+-- ------------------------------------------------------------------------------------------------
+
+theorem Linked_tail_held {held : List Bytes} {c : Nat} {t : Trans} :
+    ∀ {g : RG} {chan : List (Option Chunk)}, Linked held c g chan (some t) → t.data ∈ held := by
+  intro g chan
+  induction chan generalizing g with
+  | nil => intro h; exact h.1
+  | cons x rest ih =>
+    intro h
+    cases x with
+    | none => exact ih h
+    | some ch =>
+      obtain ⟨D, o, _, _, _, hrest⟩ := h
+      exact ih hrest
+
+structure SC (held : List Bytes) (s : Ser) (g : RG) (chan : List (Option Chunk)) : Prop where
+  batch : 1 ≤ s.batch
+  dumpHeld : ∀ d, s.fs.dump = some d → d ∈ held
+  linked : Linked held s.batch g chan (tlookup peer s.trans)
+
+theorem SC_send {held : List Bytes} {s : Ser} {g : RG} {chan : List (Option Chunk)} (h : SC held s g chan) :
+    SC held (s.getTransmissionData peer).1 g (chan ++ [(s.getTransmissionData peer).2]) := by
+  by_cases hp : s.pid = .idle
+  · cases hcur : s.cur peer with
+    | none =>
+      rw [get_nocur s peer hcur]
+      exact ⟨h.batch, h.dumpHeld, Linked_snoc_none h.linked⟩
+    | some t =>
+      obtain ⟨D, o⟩ := t
+      rw [get_of_cur s peer D o hp hcur]
+      refine ⟨h.batch, h.dumpHeld, ?_⟩
+      have hDo : D ∈ held ∧ (0 < o → tlookup peer s.trans = some ⟨D, o⟩) := by
+        unfold Ser.cur at hcur
+        cases hl : tlookup peer s.trans with
+        | some t =>
+          rw [hl] at hcur
+          simp at hcur
+          subst hcur
+          have := h.linked
+          rw [hl] at this
+          exact ⟨Linked_tail_held this, fun _ => rfl⟩
+        | none =>
+          rw [hl] at hcur
+          cases hd : s.fs.dump with
+          | none => simp [hd] at hcur
+          | some d =>
+            simp [hd] at hcur
+            obtain ⟨h1, h2⟩ := hcur
+            subst h1; subst h2
+            exact ⟨h.dumpHeld _ hd, fun ho => absurd ho (by omega)⟩
+      have := Linked_snoc_chunk (c := s.batch) D o hDo.1 hDo.2 h.linked
+      by_cases hlast : (chunkAt s.batch D o).isLast = true
+      · simp only [hlast, if_true] at this ⊢
+        rw [tlookup_terase_self]
+        exact this
+      · simp only [hlast] at this ⊢
+        simp only [Bool.false_eq_true, if_false] at this ⊢
+        rw [tlookup_tinsert_self]
+        exact this
+  · rw [get_busy s peer hp]
+    exact ⟨h.batch, h.dumpHeld, Linked_snoc_none h.linked⟩
+
+theorem SC_burst {held : List Bytes} {g : RG} (b : Nat) : ∀ {s : Ser} {chan : List (Option Chunk)},
+    SC held s g chan → SC held (s.burst peer b).1 g (chan ++ (s.burst peer b).2) := by
+  induction b with
+  | zero => intro s chan h; simpa [burst_zero] using h
+  | succ b ih =>
+    intro s chan h
+    have hs := SC_send h
+    rw [burst_succ]
+    cases hget : s.getTransmissionData peer with
+    | mk s' c =>
+      rw [hget] at hs
+      cases c with
+      | none => exact hs
+      | some ch =>
+        dsimp only
+        by_cases hl : ch.isLast = true
+        · rw [if_pos hl]; exact hs
+        · rw [if_neg hl]
+          have := ih hs
+          simpa [List.append_assoc] using this
+
+
+-- ------------------------------------------------------------------------------------------------
+-- the invariant of a link and its preservation
+-- ------------------------------------------------------------------------------------------------
+
+structure Inv (l : Link) : Prop where
+  main : ∃ g, RGood l.held l.rcv g ∧ SC l.held l.snd g l.chan
+  rcvChild : l.rcv.childOk
+  compl : ∀ d ∈ l.completed, d ∈ l.held
+
+theorem set_child (s : Ser) (c : Option Chunk) : (s.setTransmissionData c).1.child = s.child := by
+  unfold Ser.setTransmissionData
+  cases c with
+  | none => simp
+  | some c => simp only; split <;> simp
+
+theorem Inv_init (sm rm : Mode) (sf rf : Bool) (sb rb : Nat) (h : 1 ≤ sb) : Inv (Link.init sm rm sf rf sb rb) := by
+  refine ⟨⟨none, trivial, ⟨h, ?_, ?_⟩⟩, ?_, ?_⟩
+  · intro d hd; simp [Link.init] at hd
+  · simp [Link.init, tlookup, Linked]
+  · intro c hc; simp [Link.init] at hc
+  · intro d hd; simp [Link.init] at hd
+
+theorem noteHeld_inv (l : Link) (g : RG) (hr : RGood l.held l.rcv g) (hb : 1 ≤ l.snd.batch)
+    (hl : Linked l.held l.snd.batch g l.chan (tlookup peer l.snd.trans)) (hc : l.rcv.childOk)
+    (hcomp : ∀ d ∈ l.completed, d ∈ l.held) : Inv l.noteHeld := by
+  unfold Link.noteHeld
+  cases hd : l.snd.fs.dump with
+  | none =>
+    exact ⟨⟨g, hr, ⟨hb, fun d h => by simp [hd] at h, hl⟩⟩, hc, hcomp⟩
+  | some d =>
+    refine ⟨⟨g, RGood_mono d hr, ⟨hb, ?_, Linked_mono d hl⟩⟩, hc, fun x hx => List.mem_cons_of_mem _ (hcomp x hx)⟩
+    intro d' h'
+    simp only [hd, Option.some.injEq] at h'
+    subst h'
+    exact List.mem_cons_self ..
+
+theorem deliver_inv (l : Link) (h : Inv l) : Inv (l.step .deliver) := by
+  obtain ⟨⟨g, hr, hsc⟩, hchild, hcomp⟩ := h
+  unfold Link.step
+  cases hchan : l.chan with
+  | nil => exact ⟨⟨g, hr, by simpa [hchan] using hsc⟩, hchild, hcomp⟩
+  | cons x rest =>
+    have hlink := hsc.linked
+    rw [hchan] at hlink
+    cases x with
+    | none =>
+      simp only [Ser.setTransmissionData]
+      exact ⟨⟨g, hr, ⟨hsc.batch, hsc.dumpHeld, hlink⟩⟩, hchild, hcomp⟩
+    | some ch =>
+      obtain ⟨D, o, hD, hch, hg, hrest⟩ := hlink
+      have hpre : l.rcv.holdsPrefix D o := by
+        by_cases ho : o = 0
+        · exact Or.inl ho
+        · have := hg (by omega)
+          subst this
+          exact Or.inr hr.2
+      have hset := set_chunkAt l.rcv l.snd.batch hsc.batch D o hpre
+      simp only at hset
+      rw [← hch] at hset
+      obtain ⟨hret, _, hcase⟩ := hset
+      have hchild' : (l.rcv.setTransmissionData (some ch)).1.childOk := by
+        intro c hc; rw [set_child] at hc; exact hchild c hc
+      by_cases hl : ch.isLast = true
+      · simp only [hl, if_true] at hcase
+        have hng : nextG l.snd.batch D o = none := by simp [nextG, ← hch, hl]
+        rw [hng] at hrest
+        refine ⟨⟨none, trivial, ⟨hsc.batch, hsc.dumpHeld, hrest⟩⟩, hchild', ?_⟩
+        simp only [hret, hl, if_true, hcase.1]
+        intro d hd
+        rcases List.mem_cons.mp hd with hd | hd
+        · subst hd; exact hD
+        · exact hcomp d hd
+      · simp only [hl] at hcase
+        simp only [Bool.false_eq_true, if_false] at hcase
+        have hng : nextG l.snd.batch D o = some (D, o + ch.data.length) := by simp [nextG, ← hch, hl]
+        rw [hng] at hrest
+        have hr' : RGood l.held (l.rcv.setTransmissionData (some ch)).1 (some (D, o + ch.data.length)) := by
+          rcases hcase.2.1 with h0 | h1
+          · omega
+          · exact ⟨hD, h1⟩
+        refine ⟨⟨_, hr', ⟨hsc.batch, hsc.dumpHeld, hrest⟩⟩, hchild', ?_⟩
+        simp only [hret, hl]
+        exact hcomp
+
+
+theorem restart_childOk (s : Ser) : s.restart.childOk := by
+  intro c hc; simp [Ser.restart] at hc
+
+theorem step_inv (l : Link) (e : Ev) (he : e.repaired = true) (h : Inv l) : Inv (l.step e) := by
+  cases e with
+  | deliver => exact deliver_inv l h
+  | send =>
+    obtain ⟨⟨g, hr, hsc⟩, hchild, hcomp⟩ := h
+    exact ⟨⟨g, hr, SC_send hsc⟩, hchild, hcomp⟩
+  | burst b =>
+    obtain ⟨⟨g, hr, hsc⟩, hchild, hcomp⟩ := h
+    exact ⟨⟨g, hr, SC_burst b hsc⟩, hchild, hcomp⟩
+  | sendOther n =>
+    obtain ⟨⟨g, hr, hsc⟩, hchild, hcomp⟩ := h
+    have hf := get_frame l.snd (n + 1)
+    have ho := get_other l.snd (n + 1) peer (by simp [peer])
+    refine ⟨⟨g, hr, ⟨?_, ?_, ?_⟩⟩, hchild, hcomp⟩
+    · simp only [Link.step, hf.1]; exact hsc.batch
+    · simp only [Link.step, hf.2]; exact hsc.dumpHeld
+    · simp only [Link.step, hf.1, ho]; exact hsc.linked
+  | reconnect c =>
+    obtain ⟨⟨g, hr, hsc⟩, hchild, hcomp⟩ := h
+    have hc : c = true := he
+    subst hc
+    refine ⟨⟨g, hr, ⟨hsc.batch, hsc.dumpHeld, ?_⟩⟩, hchild, hcomp⟩
+    simp [Link.step, Ser.cancel, tlookup_terase_self, Linked]
+  | cancel =>
+    obtain ⟨⟨g, hr, hsc⟩, hchild, hcomp⟩ := h
+    refine ⟨⟨g, hr, ⟨hsc.batch, hsc.dumpHeld, ?_⟩⟩, hchild, hcomp⟩
+    simp only [Link.step, Ser.cancel, tlookup_terase_self]
+    exact Linked_tail_none hsc.linked
+  | serialize id pieces fail =>
+    obtain ⟨⟨g, hr, hsc⟩, hchild, hcomp⟩ := h
+    have hf := serialize_frame l.snd id pieces fail
+    apply noteHeld_inv { l with snd := (l.snd.serialize id pieces fail).1 } g hr
+    · simp only [hf.1]; exact hsc.batch
+    · simp only [hf.1, hf.2.1]; exact hsc.linked
+    · exact hchild
+    · exact hcomp
+  | check ck =>
+    obtain ⟨⟨g, hr, hsc⟩, hchild, hcomp⟩ := h
+    have hf := check_frame l.snd ck
+    refine ⟨⟨g, hr, ⟨?_, ?_, ?_⟩⟩, hchild, hcomp⟩
+    · simp only [Link.step, hf.1]; exact hsc.batch
+    · simp only [Link.step, hf.2.1]; exact hsc.dumpHeld
+    · simp only [Link.step, hf.1]
+      rcases hf.2.2.2.1 with ht | ht
+      · rw [ht]; exact hsc.linked
+      · rw [ht]; exact Linked_tail_none hsc.linked
+  | childStep =>
+    obtain ⟨⟨g, hr, hsc⟩, hchild, hcomp⟩ := h
+    have hf := childStep_frame_snd l.snd
+    apply noteHeld_inv { l with snd := l.snd.childStep } g hr
+    · simp only [hf.1]; exact hsc.batch
+    · simp only [hf.1, hf.2]; exact hsc.linked
+    · exact hchild
+    · exact hcomp
+  | sndInstall d =>
+    obtain ⟨⟨g, hr, hsc⟩, hchild, hcomp⟩ := h
+    have hf := feed_frame l.snd [some ⟨d, true, false⟩, some ⟨[], false, true⟩]
+    apply noteHeld_inv { l with snd := (l.snd.feed [some ⟨d, true, false⟩, some ⟨[], false, true⟩]).1 } g hr
+    · simp only [hf.1]; exact hsc.batch
+    · simp only [hf.1, hf.2]; exact hsc.linked
+    · exact hchild
+    · exact hcomp
+  | rcvSerialize id pieces fail =>
+    obtain ⟨⟨g, hr, hsc⟩, hchild, hcomp⟩ := h
+    have hf := serialize_frame l.rcv id pieces fail
+    refine ⟨⟨g, ?_, hsc⟩, hf.2.2.2.2 hchild, hcomp⟩
+    cases g with
+    | none => trivial
+    | some p => obtain ⟨D, o⟩ := p; exact ⟨hr.1, by simp only [Link.step, hf.2.2.1]; exact hr.2.1, by simp only [Link.step, hf.2.2.2.1]; exact hr.2.2⟩
+  | rcvCheck ck =>
+    obtain ⟨⟨g, hr, hsc⟩, hchild, hcomp⟩ := h
+    have hf := check_frame l.rcv ck
+    refine ⟨⟨g, ?_, hsc⟩, hf.2.2.2.2 hchild, hcomp⟩
+    cases g with
+    | none => trivial
+    | some p => obtain ⟨D, o⟩ := p; exact ⟨hr.1, by simp only [Link.step, hf.2.2.1]; exact hr.2.1, by simp only [Link.step, hf.2.1]; exact hr.2.2⟩
+  | rcvChildStep =>
+    obtain ⟨⟨g, hr, hsc⟩, hchild, hcomp⟩ := h
+    have hf := childStep_frame l.rcv hchild
+    refine ⟨⟨g, ?_, hsc⟩, hf.2.2.2.2, hcomp⟩
+    cases g with
+    | none => trivial
+    | some p => obtain ⟨D, o⟩ := p; exact ⟨hr.1, by simp only [Link.step, hf.2.2.1]; exact hr.2.1, by simp only [Link.step, hf.2.2.2.1]; exact hr.2.2⟩
+  | rcvRestart c =>
+    obtain ⟨⟨g, hr, hsc⟩, hchild, hcomp⟩ := h
+    have hc : c = true := he
+    subst hc
+    refine ⟨⟨none, trivial, ⟨hsc.batch, hsc.dumpHeld, ?_⟩⟩, restart_childOk _, hcomp⟩
+    simp [Link.step, Ser.cancel, tlookup_terase_self, Linked]
+
+theorem run_inv (evs : List Ev) : ∀ (l : Link), (∀ e ∈ evs, e.repaired = true) → Inv l → Inv (l.run evs) := by
+  induction evs with
+  | nil => intro l _ h; exact h
+  | cons e evs ih =>
+    intro l he h
+    exact ih (l.step e) (fun e' h' => he e' (List.mem_cons_of_mem _ h')) (step_inv l e (he e (List.mem_cons_self ..)) h)
+
+end PSO.Serializer
+
+namespace PSO.Serializer
+
+-- ------------------------------------------------------------------------------------------------
+-- `held` is exactly the history of the sender's store
+-- ------------------------------------------------------------------------------------------------
+
+theorem noteHeld_held (l : Link) :
+    l.noteHeld.held = l.held ∨ ∃ d, l.noteHeld.snd.fs.dump = some d ∧ l.noteHeld.held = d :: l.held := by
+  unfold Link.noteHeld
+  cases hd : l.snd.fs.dump with
+  | none => left; rfl
+  | some d => right; exact ⟨d, by simp [hd], rfl⟩
+
+theorem step_held (l : Link) (e : Ev) :
+    (l.step e).held = l.held ∨ ∃ d, (l.step e).snd.fs.dump = some d ∧ (l.step e).held = d :: l.held := by
+  cases e with
+  | serialize id p f => exact noteHeld_held _
+  | childStep => exact noteHeld_held _
+  | sndInstall d => exact noteHeld_held _
+  | deliver =>
+    left
+    unfold Link.step
+    cases l.chan <;> rfl
+  | reconnect c => left; rfl
+  | rcvRestart c => left; rfl
+  | _ => left; rfl
+
+theorem run_cons (l : Link) (e : Ev) (evs : List Ev) : l.run (e :: evs) = (l.step e).run evs := rfl
+
+/-- every element of `held` was the sender's store after some prefix of the events -/
+theorem held_sound (evs : List Ev) : ∀ (l : Link) (d : Bytes), d ∈ (l.run evs).held →
+    d ∈ l.held ∨ ∃ k, k ≤ evs.length ∧ (l.run (evs.take k)).snd.fs.dump = some d := by
+  induction evs with
+  | nil => intro l d h; left; exact h
+  | cons e evs ih =>
+    intro l d h
+    rw [run_cons] at h
+    rcases ih (l.step e) d h with h1 | ⟨k, hk, h2⟩
+    · rcases step_held l e with hs | ⟨d', hd', hs⟩
+      · left; rw [hs] at h1; exact h1
+      · rw [hs] at h1
+        rcases List.mem_cons.mp h1 with h1 | h1
+        · right
+          refine ⟨1, by simp, ?_⟩
+          subst h1
+          simpa [Link.run] using hd'
+        · left; exact h1
+    · right
+      exact ⟨k + 1, by simp; omega, by simpa [run_cons] using h2⟩
+
+end PSO.Serializer
+
+namespace PSO.Serializer
+
+-- ------------------------------------------------------------------------------------------------
+-- fork mode: the child's write is not disturbed by what the parent keeps doing
+-- ------------------------------------------------------------------------------------------------
+
+/-- events during which the sender neither starts another dump nor installs a received snapshot -/
+def Ev.noNewDump : Ev → Bool
+  | .serialize .. => false
+  | .sndInstall .. => false
+  | _ => true
+
+/-- the fork child of the sender has performed `j` of the operations `ops` on the file system `fs0` -/
+def ForkInv (ops : List FsOp) (fs0 : FS) (l : Link) : Prop :=
+  ∃ j, j ≤ ops.length ∧ l.snd.fs = fs0.crashAt ops j ∧
+    (l.snd.child = some ⟨ops.drop j, true⟩ ∨ (j = ops.length ∧ l.snd.child = none))
+
+theorem crashAt_succ (fs : FS) (ops : List FsOp) (j : Nat) (op : FsOp) (rest : List FsOp)
+    (h : ops.drop j = op :: rest) : fs.crashAt ops (j + 1) = (fs.crashAt ops j).apply op ∧ ops.drop (j + 1) = rest ∧ j < ops.length := by
+  have hj : j < ops.length := by
+    by_cases hj : j < ops.length
+    · exact hj
+    · rw [List.drop_eq_nil_of_le (by omega)] at h; cases h
+  have hop : ops[j] = op := by
+    have := List.drop_eq_getElem_cons hj
+    rw [this] at h
+    exact (List.cons.inj h).1
+  refine ⟨?_, ?_, hj⟩
+  · simp only [FS.crashAt, List.take_succ_eq_append_getElem hj, FS.run_append, hop]
+    rfl
+  · have := List.drop_eq_getElem_cons hj
+    rw [this] at h
+    exact (List.cons.inj h).2
+
+theorem check_child (s : Ser) (ck : Option Status) (ops : List FsOp) (h : s.child = some ⟨ops, true⟩) :
+    (s.checkSerializing ck).1.child = s.child ∨ (ops = [] ∧ (s.checkSerializing ck).1.child = none) := by
+  unfold Ser.checkSerializing
+  cases ck with
+  | some st => by_cases h' : st = .success ∨ st = .failed <;> simp [h']
+  | none =>
+    simp only
+    by_cases hm : s.memBranch = true
+    · simp only [hm, if_true]; cases s.pid <;> simp
+    · simp only [hm]
+      cases s.pid
+      · simp
+      all_goals
+        rw [h]
+        cases ops with
+        | nil => simp
+        | cons op rest => simp [h]
+
+theorem check_child_none (s : Ser) (ck : Option Status) (h : s.child = none) :
+    (s.checkSerializing ck).1.child = none := by
+  unfold Ser.checkSerializing
+  cases ck with
+  | some st => by_cases h' : st = .success ∨ st = .failed <;> simp [h', h]
+  | none =>
+    simp only
+    by_cases hm : s.memBranch = true
+    · simp only [hm, if_true]; cases s.pid <;> simp [h]
+    · simp only [hm]
+      cases s.pid <;> simp [h]
+
+theorem get_child (s : Ser) (n : Nat) : (s.getTransmissionData n).1.child = s.child := by
+  unfold Ser.getTransmissionData
+  by_cases hp : s.pid ≠ .idle
+  · simp [hp]
+  · simp only [hp, if_false]
+    cases s.cur n <;> simp
+
+theorem burst_frame (b : Nat) : ∀ (s : Ser) (n : Nat), (s.burst n b).1.child = s.child ∧ (s.burst n b).1.fs = s.fs := by
+  induction b with
+  | zero => intro s n; exact ⟨rfl, rfl⟩
+  | succ b ih =>
+    intro s n
+    rw [burst_succ]
+    have hc := get_child s n
+    have hf := (get_frame s n).2
+    cases hget : s.getTransmissionData n with
+    | mk s' c =>
+      rw [hget] at hc hf
+      cases c with
+      | none => exact ⟨hc, hf⟩
+      | some ch =>
+        dsimp only
+        by_cases hl : ch.isLast = true
+        · rw [if_pos hl]; exact ⟨hc, hf⟩
+        · rw [if_neg hl]
+          have := ih s' n
+          exact ⟨this.1.trans hc, this.2.trans hf⟩
+
+theorem noteHeld_snd (l : Link) : l.noteHeld.snd = l.snd := by
+  unfold Link.noteHeld; split <;> rfl
+
+theorem fork_step (ops : List FsOp) (fs0 : FS) (l : Link) (e : Ev) (he : e.noNewDump = true)
+    (h : ForkInv ops fs0 l) : ForkInv ops fs0 (l.step e) := by
+  obtain ⟨j, hj, hfs, hchild⟩ := h
+  cases e with
+  | serialize id p f => simp [Ev.noNewDump] at he
+  | sndInstall d => simp [Ev.noNewDump] at he
+  | send =>
+    exact ⟨j, hj, by simp only [Link.step, (get_frame _ _).2]; exact hfs, by simp only [Link.step, get_child]; exact hchild⟩
+  | burst b =>
+    exact ⟨j, hj, by simp only [Link.step, (burst_frame b _ _).2]; exact hfs,
+      by simp only [Link.step, (burst_frame b _ _).1]; exact hchild⟩
+  | sendOther n =>
+    exact ⟨j, hj, by simp only [Link.step, (get_frame _ _).2]; exact hfs, by simp only [Link.step, get_child]; exact hchild⟩
+  | deliver =>
+    refine ⟨j, hj, ?_, ?_⟩ <;> (unfold Link.step; cases l.chan <;> simp_all)
+  | reconnect c => exact ⟨j, hj, by cases c <;> exact hfs, by cases c <;> exact hchild⟩
+  | cancel => exact ⟨j, hj, hfs, hchild⟩
+  | rcvSerialize id p f => exact ⟨j, hj, hfs, hchild⟩
+  | rcvCheck ck => exact ⟨j, hj, hfs, hchild⟩
+  | rcvChildStep => exact ⟨j, hj, hfs, hchild⟩
+  | rcvRestart c => exact ⟨j, hj, by cases c <;> exact hfs, by cases c <;> exact hchild⟩
+  | check ck =>
+    have hf := (check_frame l.snd ck).2.1
+    rcases hchild with hc | ⟨hjl, hc⟩
+    · rcases check_child l.snd ck _ hc with h1 | ⟨h1, h2⟩
+      · exact ⟨j, hj, by simp only [Link.step, hf]; exact hfs, Or.inl (by simp only [Link.step, h1]; exact hc)⟩
+      · have : j = ops.length := by
+          have := congrArg List.length h1
+          simp at this; omega
+        exact ⟨j, hj, by simp only [Link.step, hf]; exact hfs, Or.inr ⟨this, by simp only [Link.step]; exact h2⟩⟩
+    · exact ⟨j, hj, by simp only [Link.step, hf]; exact hfs,
+        Or.inr ⟨hjl, by simp only [Link.step]; exact check_child_none _ _ hc⟩⟩
+  | childStep =>
+    have hsnd : (l.step .childStep).snd = l.snd.childStep := noteHeld_snd _
+    unfold ForkInv
+    rw [hsnd]
+    rcases hchild with hc | ⟨hjl, hc⟩
+    · cases hd : ops.drop j with
+      | nil =>
+        refine ⟨j, hj, ?_, Or.inl ?_⟩
+        · simp only [Ser.childStep, hc, hd]; exact hfs
+        · simp only [Ser.childStep, hc, hd]
+      | cons op rest =>
+        obtain ⟨h1, h2, h3⟩ := crashAt_succ fs0 ops j op rest hd
+        refine ⟨j + 1, h3, ?_, Or.inl ?_⟩
+        · simp only [Ser.childStep, hc, hd, h1, hfs]
+        · simp only [Ser.childStep, hc, hd, h2]
+    · exact ⟨j, hj, by simp only [Ser.childStep, hc]; exact hfs, Or.inr ⟨hjl, by simp only [Ser.childStep, hc]⟩⟩
+
+theorem fork_run (ops : List FsOp) (fs0 : FS) (evs : List Ev) : ∀ (l : Link),
+    (∀ e ∈ evs, e.noNewDump = true) → ForkInv ops fs0 l → ForkInv ops fs0 (l.run evs) := by
+  induction evs with
+  | nil => intro l _ h; exact h
+  | cons e evs ih =>
+    intro l he h
+    exact ih (l.step e) (fun e' h' => he e' (List.mem_cons_of_mem _ h')) (fork_step ops fs0 l e (he e (List.mem_cons_self ..)) h)
+
 end PSO.Serializer
